@@ -119,6 +119,45 @@ def ensure_facts(scope='lib', repo=REPO, verbose=True):
         lock.close()
 
 
+def fixture_facts(verbose=False):
+    """facts of the positive-example crate tests/fixture, produced by the same driver"""
+    if not os.path.exists(DRIVER):
+        build_driver()
+    fx = os.path.join(VERIF, 'tests', 'fixture')
+    h = hashlib.sha256()
+    for f in ('Cargo.toml', 'src/lib.rs'):
+        h.update(open(os.path.join(fx, f), 'rb').read())
+    h.update(open(DRIVER, 'rb').read())
+    key = h.hexdigest()[:16]
+    fdir = os.path.join(CACHE, 'facts', f'fixture-{key}')
+    if os.path.exists(os.path.join(fdir, 'DONE')):
+        return fdir
+    lock = open(os.path.join(CACHE, 'fixture.lock'), 'w')
+    fcntl.flock(lock, fcntl.LOCK_EX)
+    try:
+        if os.path.exists(os.path.join(fdir, 'DONE')):
+            return fdir
+        shutil.rmtree(fdir, ignore_errors=True)
+        os.makedirs(fdir)
+        target = os.path.join(CACHE, 'target-fixture')
+        shutil.rmtree(os.path.join(target, 'debug', '.fingerprint'), ignore_errors=True)
+        env = dict(os.environ)
+        env.pop('RUSTFLAGS', None)
+        env.update({'LD_LIBRARY_PATH': os.path.join(sysroot(), 'lib') + ':' + env.get('LD_LIBRARY_PATH', ''),
+                    'CARGO_NET_OFFLINE': 'true', 'RL_FACTS_OUT': fdir, 'RUSTC_WORKSPACE_WRAPPER': DRIVER,
+                    'CARGO_TARGET_DIR': target})
+        r = subprocess.run(['cargo', '+nightly', 'check', '--offline', '-q', '--lib'], cwd=fx, env=env,
+                           stdout=subprocess.PIPE, stderr=subprocess.STDOUT, text=True)
+        if r.returncode != 0 or not any(f.endswith('.jsonl') for f in os.listdir(fdir)):
+            shutil.rmtree(fdir, ignore_errors=True)
+            raise SystemExit('rl-facts: fixture crate did not compile:\n' + r.stdout[-3000:])
+        open(os.path.join(fdir, 'DONE'), 'w').write('{}')
+        return fdir
+    finally:
+        fcntl.flock(lock, fcntl.LOCK_UN)
+        lock.close()
+
+
 def load_records(fdir):
     """Parse every fact file of a fact directory; cached as a pickle next to it."""
     pk = os.path.join(fdir, 'records.pickle')
